@@ -241,7 +241,7 @@ def main(argv=None):
             standin_error = 'stand-in timed out'
 
     # --- verdicts -------------------------------------------------------------------------
-    known = [k for k in load_known() if k.get('property') == prop and k.get('status', 'open') == 'open']
+    known = [k for k in load_known() if k.get('status', 'open') == 'open']
     lock = load_lock() or {}
     locked = set(lock.get(prop, {}).get('clauses', []))
     violations = []       # dicts with 'what', 'replay'
@@ -388,7 +388,14 @@ def main(argv=None):
     assumed = sorted(q for q, c in api.REGISTRY.items() if c.assumed and any(
         q in (g.get('used_contracts') or []) for g in gens))
     proved_all = (n_obl > 0 and n_dis == n_obl and not undecided and not faults)
-    level = 'proof' if proved_all else 'other'
+    try:
+        from tools.manifest_texts import TEXTS
+        claimed = TEXTS.get(prop, {}).get('category', 'other')
+    except Exception:
+        claimed = 'other'
+    # `proof` only where the manifest claims proof AND every obligation of this run was discharged;
+    # properties decided (partly) by the bounded stand-in report level `other`
+    level = 'proof' if (proved_all and claimed == 'proof') else 'other'
     coverage = {
         'obligations': n_obl, 'discharged': n_dis,
         'checker_cmd': 'cd /verif && ./vcheck %s --tier %s' % (prop, tier),
@@ -410,7 +417,9 @@ def main(argv=None):
         'vacuity': {'canaries': {f['name']: f.get('canary') for f in functions_ev}},
         'known_findings_hit': [k.get('id') for k in known_hits],
         'cross_check': cross, 'samples': samples,
-        'explanation': ('all obligations discharged' if proved_all else
+        'explanation': (('all obligations discharged' + ('' if claimed == 'proof' else
+                         '; but the obligations cover only part of this property - the rest is decided by the '
+                         'bounded stand-in (see bounded), hence level other')) if proved_all else
                         'not every obligation was discharged in this run: %d undecided entries; the bounded '
                         'stand-in decided the run for those (see undecided / bounded)' % len(undecided)),
         'evaluations': (standin or {}).get('evaluations', 0) + n_obl,
